@@ -1393,6 +1393,14 @@ int ov_raw_seek(OggVorbis_File *vf,ogg_int64_t pos){
 
       if(!lastblock){
         pagepos=_get_next_page(vf,&og,-1);
+        if(pagepos==OV_EREAD){
+          /* a read error is not the end of the file; dump the machine
+             so we're in a known state, as for a failed seek above */
+          ogg_stream_clear(&work_os);
+          vf->pcm_offset=-1;
+          _decode_clear(vf);
+          return(OV_EREAD);
+        }
         if(pagepos<0){
           vf->pcm_offset=ov_pcm_total(vf,-1);
           break;
